@@ -75,7 +75,7 @@ impl Check for C05 {
     fn runs(&self, tier: Tier) -> u64 {
         match tier {
             Tier::Quick => 60_000,
-            Tier::Thorough => 6_000_000,
+            Tier::Thorough => 40_000_000,
         }
     }
     fn rule(&self) -> String {
